@@ -72,6 +72,13 @@ def finish(sim, violations, verdicts, nontrivial, runs, out_texts, extra=None):
     h = hashlib.sha256()
     for t in out_texts:
         h.update((t or "").encode("utf-8", "surrogatepass"))
+    # reader fidelity: how much of sheXer's text the comparators could not read (a change of wording in the
+    # serializer would show here, as lost precision, instead of as an alarm)
+    from .. import shexread
+    for k in list(shexread.STATS):
+        if shexread.STATS[k]:
+            sim.probes["reader_" + k] += shexread.STATS[k]
+        shexread.STATS[k] = 0
     return {
         "violations": violations,
         "probes": dict(sim.probes),
